@@ -362,6 +362,18 @@ function CEmitter:add_scalar_literal(num, numtype, base)
   local minusone = false
   -- add number literal
   if numtype.is_float then -- float
+    if numtype.is_float32 and not bn.isnan(num) and not bn.isinfinite(num) then
+      -- 9 significant digits identify a float32 but not a double: round the constant to the nearest float32 first,
+      -- otherwise its 9 digit text may fall on the other side of a float32 rounding boundary
+      local d = bn.tonumber(num)
+      if math.abs(d) >= 0x1.ffffffp+127 then -- from FLT_MAX + half ulp on it rounds to infinity
+        num = d < 0 and -math.huge or math.huge
+      elseif math.abs(d) > 0x1.fffffep+127 then -- rounds down to FLT_MAX
+        num = d < 0 and -0x1.fffffep+127 or 0x1.fffffep+127
+      else
+        num = string.unpack('<f', string.pack('<f', d))
+      end
+    end
     if bn.isnan(num) then -- not a number
       self:add_builtin('NELUA_NAN_', numtype)
       return
